@@ -61,13 +61,14 @@ def getReq (url : Str) (headers : Option Hdrs) (retries : Arg) : Req :=
 /-! ### origin equality -/
 
 /-- **`is_same_host` ⇔ same origin** — for every pool identity and every parsed URL (ports other than
-the meaningless `0`): true iff the URL is path-only (starts with `/`), or the scheme (`or "http"`), the
+the meaningless `0`): true iff the URL is path-only (starts with `/` but not with `//` — a scheme-relative
+`//host/path` names a host and is compared like an absolute URL), or the scheme (`or "http"`), the
 normalised (lower-cased, bracket-free) host and the effective port (own port, else the default of the
 scheme from `port_by_scheme`) agree with the pool's -/
 theorem C06_same_origin_iff (p : PoolId) (url : Str) (pu : PUrl)
     (hp : p.port ≠ some 0) (hu : pu.port ≠ some 0) :
     isSameHost p url pu = true ↔
-      startsWithSlash url = true ∨
+      pathOnly url = true ∨
       (schemeOr pu = p.scheme ∧ pu.host.map (fun h => normalizeHost h (schemeOr pu)) = some p.host ∧
         effPort pu.port (schemeOr pu) = effPort p.port p.scheme) :=
   isSameHost_iff p url pu hp hu
@@ -80,7 +81,11 @@ example :
     isSameHost ⟨sHttp, hostA, some 80⟩ (lit "http://a.example:8080/x")
       (absUrl sHttp hostA (some 8080) (lit "a.example:8080") (lit "/x")) = false ∧
     isSameHost ⟨sHttp, hostA, some 80⟩ (lit "https://a.example/x")
-      (absUrl sHttps hostA none hostA (lit "/x")) = false := by
+      (absUrl sHttps hostA none hostA (lit "/x")) = false ∧
+    -- a bare path is the pool's own; a scheme-relative reference is judged by the host it names
+    isSameHost ⟨sHttp, hostA, some 80⟩ (lit "/x") (pathUrl (lit "/x")) = true ∧
+    isSameHost ⟨sHttp, hostA, some 80⟩ (lit "//a.example/x") (relUrl hostA (lit "/x")) = true ∧
+    isSameHost ⟨sHttp, hostA, some 80⟩ (lit "//b.example/y") (relUrl hostB (lit "/y")) = false := by
   decide
 
 /-! ### the single-host pool -/
@@ -189,17 +194,14 @@ example :
 
 /- Full statement (the property text): for every `PoolManager` / `ProxyManager`, every placement of
 the policy and every chain — once a hop crosses origins, no header named in the *supplied* policy's
-`remove_headers_on_redirect` is in that or any later request.  It is FALSE of the code in three
-cases, each with a witness below:
- 1. the policy sits on the manager constructor only (`C06_manager_remove_set_ignored`) — excluded by
-    `PlacementHonoured` (for the policy the code does consult the statement holds without it:
-    `C06_stripped_effective`);
- 2. behind a forwarding proxy `is_same_host` is asked of the *proxy's* pool
-    (`C06_proxy_origin_keeps_credentials`) — excluded by `Crossing`'s clause "no proxy, or the current
-    URL is `https`" (the pool consulted is the origin's own);
- 3. a scheme-relative target `//host/path` (only reachable from a scheme-less request URL) starts with
-    `/` and is judged same-host whatever its host (`C06_scheme_relative_keeps_credentials`) — excluded
-    by `Crossing`'s clause `startsWithSlash b.url = false`.
+`remove_headers_on_redirect` is in that or any later request.  It is FALSE of the code in one case,
+with a witness below: behind a forwarding proxy `is_same_host` is asked of the *proxy's* pool
+(`C06_proxy_origin_keeps_credentials`) — excluded by `Crossing`'s clause "no proxy, or the current
+URL is `https`" (the pool consulted is the origin's own).  The two other cases in which it used to
+be false are repaired and covered: a policy that sits on the manager constructor only is the one
+the code consults (`C06_manager_remove_set_honoured`; `effective = supplied`), and a scheme-relative
+target `//host/path` (reachable from a scheme-less request URL) is judged by the host it names
+(`C06_scheme_relative_stripped`; `Crossing` only asks that the target is not a bare path `/…`).
 `injected m` are the names the proxy machinery itself writes into a forwarded request (`Accept`,
 `Host`, the `proxy_headers`) — empty for a `PoolManager`. -/
 
@@ -220,9 +222,10 @@ theorem C06_stripped_effective (W : World) (m : Mgr) (fuel : Nat) (req : Req)
 URLs name origins that differ in scheme, normalised host or effective port), request `i+1` and every
 later request `j` of the chain carries no header whose lower-cased name is in the supplied policy's
 `remove_headers_on_redirect` (other than what the proxy machinery injects; nothing for a
-`PoolManager`) — whatever mapping type carried them, whatever the casing, for every chain shape. -/
+`PoolManager`) — whatever mapping type carried them, whatever the casing, for every chain shape and
+every placement of the policy (per request or on the manager constructor).  Partial only in
+`Crossing`'s proxy clause (hops leaving a request *forwarded* by a `ProxyManager` are not covered). -/
 theorem C06_stripped_after_cross_origin_partial (W : World) (m : Mgr) (fuel : Nat) (req : Req)
-    (hpl : PlacementHonoured (.manager m) req)
     (hwf : CarriersWF (.manager m) req)
     (hlow : (supplied (.manager m) req).removeHeadersOnRedirect.map lower
       = (supplied (.manager m) req).removeHeadersOnRedirect)
@@ -232,7 +235,7 @@ theorem C06_stripped_after_cross_origin_partial (W : World) (m : Mgr) (fuel : Na
     (hx : Crossing W m a b)
     (hc : (run W (.manager m) fuel req).log[j]? = some c) :
     ∀ l ∈ c.headers, lower l.1 ∈ (supplied (.manager m) req).removeHeadersOnRedirect → l.1 ∈ injected m := by
-  rw [← effective_eq_supplied _ req hpl] at hlow ⊢
+  rw [← effective_eq_supplied _ req] at hlow ⊢
   exact run_stripped W m fuel req hwf hlow i j a b c hij ha hb hx hc
 
 /-- every policy that went through `Retry.__init__` (all of them) satisfies the lower-case hypothesis;
@@ -261,14 +264,33 @@ theorem C06_dest_is_url_origin (W : World) (m : Mgr) (fuel : Nat) (req : Req) (h
 example :
     let m : Mgr := ⟨.none, .dict [], none⟩
     let req := getReq urlA (some (.dict [(sAuth, lit "s"), (lit "X-Keep", lit "k")])) .none
-    PlacementHonoured (.manager m) req ∧ CarriersWF (.manager m) req ∧
+    CarriersWF (.manager m) req ∧
     (supplied (.manager m) req).removeHeadersOnRedirect.map lower
       = (supplied (.manager m) req).removeHeadersOnRedirect ∧
     (∃ a b, (run crossWorld (.manager m) 5 req).log[0]? = some a ∧
       (run crossWorld (.manager m) 5 req).log[1]? = some b ∧ Crossing crossWorld m a b) ∧
     (run crossWorld (.manager m) 5 req).log.map (fun s => (s.dest.host, s.headers))
       = [(hostA, [(sAuth, lit "s"), (lit "X-Keep", lit "k")]), (hostB, [(lit "X-Keep", lit "k")])] := by
-  refine ⟨Or.inr (Or.inr ⟨_, rfl, rfl⟩), ⟨trivial, fun h hh => ?_⟩, by decide, ?_, by decide⟩
+  refine ⟨⟨trivial, fun h hh => ?_⟩, by decide, ?_, by decide⟩
+  · injection hh with hh; subst hh; trivial
+  · refine ⟨_, _, rfl, rfl, absUrl sHttp hostA none hostA (lit "/x"), absUrl sHttp hostB none hostB (lit "/y"),
+      by decide, by decide, by decide, Or.inl rfl, by decide⟩
+
+/-- non-vacuity for the constructor placement: the custom set `{X-Secret}` on the `PoolManager`
+constructor, nothing per request — the hypotheses hold, the hop is a `Crossing`, and `X-Secret` does
+not reach `b.example` (while `Authorization`, which this policy does not name, does) -/
+example :
+    let m : Mgr := ⟨.retry (Retry.init { Retry.initDefaults with removeHeadersOnRedirect := [sXSecret] }),
+      .dict [], none⟩
+    let req := getReq urlA (some (.dict [(sXSecret, lit "s"), (sAuth, lit "t")])) .none
+    CarriersWF (.manager m) req ∧
+    (supplied (.manager m) req).removeHeadersOnRedirect.map lower
+      = (supplied (.manager m) req).removeHeadersOnRedirect ∧
+    (∃ a b, (run crossWorld (.manager m) 5 req).log[0]? = some a ∧
+      (run crossWorld (.manager m) 5 req).log[1]? = some b ∧ Crossing crossWorld m a b) ∧
+    (run crossWorld (.manager m) 5 req).log.map (fun s => (s.dest.host, s.headers))
+      = [(hostA, [(sXSecret, lit "s"), (sAuth, lit "t")]), (hostB, [(sAuth, lit "t")])] := by
+  refine ⟨⟨trivial, fun h hh => ?_⟩, by decide, ?_, by decide⟩
   · injection hh with hh; subst hh; trivial
   · refine ⟨_, _, rfl, rfl, absUrl sHttp hostA none hostA (lit "/x"), absUrl sHttp hostB none hostB (lit "/y"),
       by decide, by decide, by decide, Or.inl rfl, by decide⟩
@@ -330,19 +352,19 @@ example :
   injection hh with hh; subst hh
   exact extend_inv _ [] inv_nil
 
-/-! ### negation witnesses for the three excluded cases -/
+/-! ### the two repaired cases (positive, on the inputs of the former negation witnesses) and the
+negation witness for the case still excluded -/
 
-/-- **Witness 1** (known finding `leak:manager-constructor-policy-ignored`):
+/-- **Repaired** (former witness of `leak:manager-constructor-policy-ignored`, same input):
 `PoolManager(retries=Retry(remove_headers_on_redirect=["X-Secret"]))` — the supplied strip set is
-`{x-secret}`, yet `X-Secret` is forwarded from `a.example` to `b.example` (the code consults
-`Retry.DEFAULT`'s set instead) -/
-theorem C06_manager_remove_set_ignored :
+`{x-secret}`, and `X-Secret` is *not* forwarded from `a.example` to `b.example` -/
+theorem C06_manager_remove_set_honoured :
     let m : Mgr := ⟨.retry (Retry.init { Retry.initDefaults with removeHeadersOnRedirect := [sXSecret] }),
       .dict [], none⟩
     let req := getReq urlA (some (.dict [(sXSecret, lit "s")])) .none
     (supplied (.manager m) req).removeHeadersOnRedirect = [lower sXSecret] ∧
     (run crossWorld (.manager m) 5 req).log.map (fun s => (s.dest.host, s.headers))
-      = [(hostA, [(sXSecret, lit "s")]), (hostB, [(sXSecret, lit "s")])] := by
+      = [(hostA, [(sXSecret, lit "s")]), (hostB, [])] := by
   decide
 
 def urlP : Str := lit "http://proxy.example:3128/y"
@@ -354,7 +376,7 @@ def proxyWorld : World :=
      (urlP, absUrl sHttp (lit "proxy.example") (some 3128) (lit "proxy.example:3128") (lit "/y"))]
     [(urlA, urlP, urlP)]
 
-/-- **Witness 2** (known finding `leak:proxymanager-forwarding-same-host-judged-against-proxy`):
+/-- **Witness** (known finding `leak:proxymanager-forwarding-same-host-judged-against-proxy`):
 `ProxyManager("http://proxy.example:3128")`, default policy, `Authorization` per request: the redirect
 from `http://a.example/x` into the proxy's own origin is judged same-host (the pool consulted is the
 proxy's) and `Authorization` arrives at `proxy.example:3128` -/
@@ -373,15 +395,26 @@ def schemelessWorld : World :=
      (lit "/x", pathUrl (lit "/x")), (lit "/y", pathUrl (lit "/y"))]
     [(lit "//a.example/x", lit "//b.example/y", lit "//b.example/y")]
 
-/-- **Witness 3** (finding `leak:scheme-relative-target-judged-same-host`): a `PoolManager` asked for
-the scheme-less URL `//a.example/x` (deprecated, still served as `http`) with `Authorization`, answered
-by `302 Location: //b.example/y`: `urljoin` keeps the target scheme-relative, `is_same_host` returns
-`True` for anything that starts with `/`, and `Authorization` arrives at `b.example` -/
-theorem C06_scheme_relative_keeps_credentials :
+/-- **Repaired** (former witness of `leak:scheme-relative-target-judged-same-host`, same input): a
+`PoolManager` asked for the scheme-less URL `//a.example/x` (deprecated, still served as `http`) with
+`Authorization`, answered by `302 Location: //b.example/y`: `urljoin` keeps the target
+scheme-relative, `is_same_host` judges it by the host it names, and `Authorization` does *not* arrive
+at `b.example` -/
+theorem C06_scheme_relative_stripped :
     let m : Mgr := ⟨.none, .dict [], none⟩
     let req := getReq (lit "//a.example/x") (some (.dict [(sAuth, lit "s")])) .none
     (run schemelessWorld (.manager m) 5 req).log.map (fun s => (s.dest, s.headers))
-      = [(⟨sHttp, hostA, 80⟩, [(sAuth, lit "s")]), (⟨sHttp, hostB, 80⟩, [(sAuth, lit "s")])] := by
+      = [(⟨sHttp, hostA, 80⟩, [(sAuth, lit "s")]), (⟨sHttp, hostB, 80⟩, [])] := by
   decide
+
+/-- … and that hop is a `Crossing` (the scheme-relative target is not a bare path), so it is covered by
+`C06_stripped_after_cross_origin_partial` -/
+example :
+    let m : Mgr := ⟨.none, .dict [], none⟩
+    let req := getReq (lit "//a.example/x") (some (.dict [(sAuth, lit "s")])) .none
+    ∃ a b, (run schemelessWorld (.manager m) 5 req).log[0]? = some a ∧
+      (run schemelessWorld (.manager m) 5 req).log[1]? = some b ∧ Crossing schemelessWorld m a b :=
+  ⟨_, _, rfl, rfl, relUrl hostA (lit "/x"), relUrl hostB (lit "/y"),
+    by decide, by decide, by decide, Or.inl rfl, by decide⟩
 
 end U3.Props
